@@ -274,6 +274,9 @@ pub struct HGoal<K: Kit> {
     pub log_on: Cell<bool>,
     pub sample_log: RefCell<Vec<(u64, K::S)>>,
     pub pred_log: RefCell<Vec<(u64, K::S, bool)>>,
+    /// Script mode only: unwind with `ScriptExhausted` when the script runs out instead of cycling
+    /// through the samples (deadline-landing runs need every call to end)
+    pub strict_script: Cell<bool>,
 }
 
 impl<K: Kit> HGoal<K> {
@@ -291,6 +294,7 @@ impl<K: Kit> HGoal<K> {
             log_on: Cell::new(false),
             sample_log: RefCell::new(Vec::new()),
             pred_log: RefCell::new(Vec::new()),
+            strict_script: Cell::new(false),
         }
     }
     /// Pure predicate (no logging, no counters).
@@ -340,6 +344,9 @@ impl<K: Kit> GoalSampleableRegion<K::S> for HGoal<K> {
                 if p < sc.len() {
                     self.pos.set(p + 1);
                     self.samples[sc[p] as usize].clone()
+                } else if self.strict_script.get() {
+                    drop(sc);
+                    std::panic::panic_any(ScriptExhausted("goal"));
                 } else {
                     self.samples[k % n].clone()
                 }
